@@ -1,44 +1,70 @@
 // C03: reduced length, geodesic scales and area under a geodesic
+#include "C01_tool.hpp"
 #include "geodcommon.hpp"
 #include "C01_line.hpp"
-using namespace gd; using namespace gv;
+#include "C01_xline.hpp"
+#include "C01_routes.hpp"
+using namespace gd; using namespace gv; using namespace routes;
+static std::string sci(double x) { char b[40]; std::snprintf(b, sizeof b, "%.6g", x); return b; }
+// the geodesic scales are derivatives of positions with respect to positions: their error is a length error over the length scale of the
+// surface, the smallest principal radius of curvature of the ellipsoid (b^2/a at the equator of an oblate, a^2/b at the poles of a prolate one)
+static double rho_min(double a, double f) { double b = a * (1 - f); return std::fmin(b * b / a, a * a / b); }
 
 static double tolS(double f, double a, double a12) {   // documented area accuracy 0.1 m^2 (WGS84), x4, growing with |f| for the series
   double x = std::fabs(f); double base = x <= 1 / 150.0 + 1e-12 ? 0.4 : x <= 1 / 100.0 + 1e-12 ? 0.4 : x <= 1 / 50.0 + 1e-12 ? 1.5 : NAN;
   return base * (a / 6378137.0) * (a / 6378137.0) * std::fmax(1.0, std::fabs(a12) / 180);
 }
-static double tolSx(double f, double a, double a12) { double q = (1 - f) >= 1 ? (1 - f) : 1 / (1 - f); return (q <= 1.05 ? 4.0 : 60.0) *   /* the exact solver's DST area has no documented figure: measured 1 m^2 (WGS84) / 14 m^2 (b/a = 2) on the unchanged tree, x4 */ (a / 6378137.0) * (a / 6378137.0) * std::fmax(1.0, std::fabs(a12) / 180); }
+static double tolSx(double f, double a, double a12) { double q = (1 - f) >= 1 ? (1 - f) : 1 / (1 - f); return (q <= 1.05 ? 4.0 : q <= 2.001 ? 60.0 : NAN) *   /* the exact solver's DST area has no documented figure: measured 1 m^2 (WGS84) / 14 m^2 (b/a = 2) on the unchanged tree, x4 */ (a / 6378137.0) * (a / 6378137.0) * std::fmax(1.0, std::fabs(a12) / 180); }
 
-template<class Geod> static void check_vs_oracle(const char* name, const Geod& g, double acc, double tS, double ea, double f, double lat1, double lon1, double azi1, bool arc, double len, const oracle::Line& L, const oracle::Line::Pos& p) {
-  if (std::isnan(acc)) return;
-  Res r; r.a12 = g.GenDirect(lat1, lon1, azi1, arc, len, Geod::ALL, r.lat2, r.lon2, r.azi2, r.s12, r.m12, r.M12, r.M21, r.S12);
-  double tol = tol_pos(acc, ea, (double)p.a12);
-  if (!(std::fabs(r.m12 - (double)p.m12) <= 2 * tol)) bad(std::string("m12-") + name, "reduced length off by " + std::to_string((r.m12 - (double)p.m12) * 1e9) + " nm (tolerance " + std::to_string(2 * tol * 1e9) + ")");
-  double tM = 2 * tol / ea + 8e-16 * (1 + std::fabs((double)p.M12));
-  if (!(std::fabs(r.M12 - (double)p.M12) <= tM * std::fmax(1.0, std::fabs((double)p.M12)))) bad(std::string("M12-") + name, "geodesic scale M12 off by " + std::to_string(r.M12 - (double)p.M12));
-  if (!(std::fabs(r.M21 - (double)p.M21) <= tM * std::fmax(1.0, std::fabs((double)p.M21)))) bad(std::string("M21-") + name, "geodesic scale M21 off by " + std::to_string(r.M21 - (double)p.M21));
+// m12, M12, M21, S12 delivered by one route, against the defining integrals
+static void check_vs_oracle(const std::string& name, const Out& x, double acc, double scale, double tS, double ea, double lat1, const QLine& L, const oracle::Line::Pos& p) {
+  if (std::isnan(acc) || !(x.have & (hm | hM | hAREA))) return;
+  const Res& r = x.r;
+  double tol = tol_len(acc, scale, (double)p.a12);
+  if ((x.have & hm) && !(std::fabs(r.m12 - (double)p.m12) <= 2 * tol)) bad("m12-" + name, x.name + ": reduced length off by " + std::to_string((r.m12 - (double)p.m12) * 1e9) + " nm (tolerance " + std::to_string(2 * tol * 1e9) + ")");
+  double tM = 2 * tol / rho_min(ea, (double)L.f) + 8e-16 * (1 + std::fabs((double)p.M12));
+  if ((x.have & hM) && !(std::fabs(r.M12 - (double)p.M12) <= tM * std::fmax(1.0, std::fabs((double)p.M12)))) bad("M12-" + name, x.name + ": geodesic scale M12 = " + sci(r.M12) + " off by " + sci(r.M12 - (double)p.M12) + " (tolerance " + sci(tM * std::fmax(1.0, std::fabs((double)p.M12))) + ")");
+  if ((x.have & hM) && !(std::fabs(r.M21 - (double)p.M21) <= tM * std::fmax(1.0, std::fabs((double)p.M21)))) bad("M21-" + name, x.name + ": geodesic scale M21 = " + sci(r.M21) + " off by " + sci(r.M21 - (double)p.M21) + " (tolerance " + sci(tM * std::fmax(1.0, std::fabs((double)p.M21))) + ")");
   // S12 is discontinuous where the path touches a pole (jumps by c2*dalpha): compare only when the path stays off the poles
   LD mx = fabsl(L.calp0);   // max |sin beta| along the geodesic = |cos alp0|
   bool nearpole = (double)mx > 0.9986 || std::fabs(lat1) > 87;   // within 3 degrees of a pole S12 is ill-conditioned (c2 * d(alpha))
-  if (!nearpole && !std::isnan(tS)) {
+  if ((x.have & hAREA) && !nearpole && !std::isnan(tS)) {
     double per = double(2 * oracle::PI * L.c2());
     double dS = std::remainder(r.S12 - (double)p.S12, per);
     // conditioning: S12 = c2*(alp2 - alp1) + ...; an azimuth is defined to (position accuracy)/(a*|sin alp0|) only, so the documented
     // 0.1 m^2 (which is c2 * 2.5e-15 rad on WGS84) cannot hold where the geodesic passes close to a pole: scale by 1/(4|sin alp0|)
     double tSc = tS * std::fmax(1.0, 0.25 / std::fmax((double)fabsl(L.salp0), 1e-3));
-    if (!(std::fabs(dS) <= tSc)) bad(std::string("S12-") + name, "area under the geodesic off by " + std::to_string(dS) + " m^2 (tolerance " + std::to_string(tSc) + ")");
+    if (!(std::fabs(dS) <= tSc)) bad("S12-" + name, x.name + ": area under the geodesic off by " + std::to_string(dS) + " m^2 (tolerance " + std::to_string(tSc) + ")");
+  }
+}
+// every documented route to m12, M12, M21, S12 of the direct problem: each against the oracle, and all against GenDirect(ALL)
+template<class G, class Ln> static void direct_config(const std::string& name, const G& g, double acc, double scale, double tS, double ea, double f, double lat1, double lon1, double azi1, bool arc, double len, const QLine* L, const oracle::Line::Pos* p) {
+  std::vector<Out> o = direct_routes<G, Ln>(g, lat1, lon1, azi1, arc, len, 2);
+  const Res* P = nullptr; for (auto& x : o) if (x.name == "GenDirect(ALL)") P = &x.r;
+  for (auto& x : o) {
+    if (L) check_vs_oracle(name, x, acc, scale, tS, ea, lat1, *L, *p);
+    if (std::isnan(acc) || !P) continue;
+    double tol = tol_len(acc, scale, P->a12), tM = 2 * tol / rho_min(ea, f) + 8e-16 * (1 + std::fabs(P->M12) + std::fabs(P->M21));
+    const Res& r = x.r;
+    if ((x.have & hm) && !(std::fabs(r.m12 - P->m12) <= 2 * tol)) bad("route-m12-" + name, x.name + ": m12 = " + std::to_string(r.m12) + " but GenDirect(ALL) gives " + std::to_string(P->m12));
+    if ((x.have & hM) && !(std::fabs(r.M12 - P->M12) <= tM * std::fmax(1.0, std::fabs(P->M12)) && std::fabs(r.M21 - P->M21) <= tM * std::fmax(1.0, std::fabs(P->M21))))
+      bad("route-M-" + name, x.name + ": M12, M21 = " + std::to_string(r.M12) + ", " + std::to_string(r.M21) + " but GenDirect(ALL) gives " + std::to_string(P->M12) + ", " + std::to_string(P->M21));
+    if ((x.have & hAREA) && !(std::fabs(r.S12 - P->S12) <= 1e-9 * std::fabs(P->S12) + (std::isnan(tS) ? 1.0 : tS))) bad("route-S12-" + name, x.name + ": S12 = " + std::to_string(r.S12) + " but GenDirect(ALL) gives " + std::to_string(P->S12));
   }
 }
 
 static Reg r_len("glengths", [](const Args& a) {
   double ea = unhx(a[0]), f = unhx(a[1]), lat1 = unhx(a[2]), lon1 = unhx(a[3]), azi1 = unhx(a[4]); bool arc = a[5] == "1"; double len = unhx(a[6]);
-  Geodesic G(ea, f); GeodesicExact E(ea, f);
+  Geodesic G(ea, f), X(ea, f, true); GeodesicExact E(ea, f);
   Res rg; rg.a12 = G.GenDirect(lat1, lon1, azi1, arc, len, Geodesic::ALL, rg.lat2, rg.lon2, rg.azi2, rg.s12, rg.m12, rg.M12, rg.M21, rg.S12);
   emit(hx(rg.m12) + " " + hx(rg.M12) + " " + hx(rg.M21) + " " + hx(rg.S12));
-  if (!oracle_ok(f)) return;
-  oracle::Line L(ea, f, lat1, lon1, azi1); oracle::Line::Pos p = L.position(arc, len);
-  check_vs_oracle("series", G, acc_series(f), tolS(f, ea, (double)p.a12), ea, f, lat1, lon1, azi1, arc, len, L, p);
-  check_vs_oracle("exact", E, acc_exact(f), tolSx(f, ea, (double)p.a12), ea, f, lat1, lon1, azi1, arc, len, L, p);
+  double scale = size_scale(ea, f);
+  bool useo = oracle_range(f); QLine L(ea, f, lat1, lon1, azi1); oracle::Line::Pos p{};
+  if (useo) { p = L.position(arc, len); if (!std::isfinite((double)p.a12)) { useo = false; stat("oracle_abstains"); } }
+  double a12 = useo ? (double)p.a12 : (arc ? len : 180.0);
+  direct_config<Geodesic, GeodesicLine>("series", G, acc_series_full(f), scale, tolS(f, ea, a12), ea, f, lat1, lon1, azi1, arc, len, useo ? &L : nullptr, &p);
+  direct_config<GeodesicExact, GeodesicLineExact>("exact", E, acc_exact_full(f), scale, tolSx(f, ea, a12), ea, f, lat1, lon1, azi1, arc, len, useo ? &L : nullptr, &p);
+  direct_config<Geodesic, GeodesicLine>("exact-true", X, acc_exact_full(f), scale, tolSx(f, ea, a12), ea, f, lat1, lon1, azi1, arc, len, useo ? &L : nullptr, &p);
   // ellipsoid area = 4 pi c2 (closed form)
   double A = G.EllipsoidArea(), Ax = E.EllipsoidArea(), Ar = double(4 * oracle::PI * L.c2());
   if (!(std::fabs(A - Ar) <= 8 * ulp(Ar) && std::fabs(Ax - Ar) <= 8 * ulp(Ar))) bad("ellipsoid-area", "EllipsoidArea differs from 4 pi c2");
@@ -49,6 +75,23 @@ template<class Geod, class Line> static void inverse_props(const char* name, con
   if (std::isnan(acc)) return;
   double s12, a1, a2, m12, M12, M21, S12; double a12 = g.Inverse(lat1, lon1, lat2, lon2, s12, a1, a2, m12, M12, M21, S12);
   double tol = tol_pos(acc, ea, a12);
+  // every overload / single-output mask of the inverse interface returns the same quantities (the full overload is judged against the oracle below)
+  { double tM = 4 * tol / ea + 8e-15;
+    for (auto& x : inverse_routes<Geod>(g, lat1, lon1, lat2, lon2)) { const Res& r = x.r; std::string why;
+      if ((x.have & hS) && !(std::fabs(r.s12 - s12) <= tol)) why += " s12 = " + std::to_string(r.s12) + " (" + std::to_string(s12) + ")";
+      if (!(std::fabs(r.a12 - a12) * Math::degree() * ea <= tol + 1e-9)) why += " a12 = " + std::to_string(r.a12) + " (" + std::to_string(a12) + ")";
+      if ((x.have & hm) && !(std::fabs(r.m12 - m12) <= 2 * tol)) why += " m12 = " + std::to_string(r.m12) + " (" + std::to_string(m12) + ")";
+      if ((x.have & hM) && !(std::fabs(r.M12 - M12) <= tM && std::fabs(r.M21 - M21) <= tM)) why += " M12, M21 = " + std::to_string(r.M12) + ", " + std::to_string(r.M21) + " (" + std::to_string(M12) + ", " + std::to_string(M21) + ")";
+      if ((x.have & hAREA) && !(std::fabs(r.S12 - S12) <= 1e-9 * std::fabs(S12) + (std::isnan(tS) ? 1.0 : tS))) why += " S12 = " + std::to_string(r.S12) + " (" + std::to_string(S12) + ")";
+      if (!why.empty()) bad(std::string("inverse-route-") + name, x.name + ":" + why + "; in parentheses: Inverse(s12,azi1,azi2,m12,M12,M21,S12)"); }
+    // the line through both points (InverseLine), evaluated at its third point
+    if (s12 > 1 && a12 < 179) { Line l = g.InverseLine(lat1, lon1, lat2, lon2); Res r = nanres();
+      r.a12 = l.GenPosition(false, l.Distance(), Geod::ALL, r.lat2, r.lon2, r.azi2, r.s12, r.m12, r.M12, r.M21, r.S12);
+      if (!(std::fabs(r.m12 - m12) <= 2 * tol && std::fabs(r.M12 - M12) <= tM && std::fabs(r.M21 - M21) <= tM)) bad(std::string("inverseline-") + name, "InverseLine(...).Position(Distance()) and Inverse disagree on m12/M12/M21");
+      // S12 = c2 (alp2 - alp1) + ...: an azimuth is defined to (position accuracy)/(a |sin alp0|) only (as in check_vs_oracle)
+      double salp0 = std::fabs(std::sin(a1 * Math::degree()) * (double)cosbeta(f, lat1)), cond = std::fmax(1.0, 0.25 / std::fmax(salp0, 1e-3));
+      if (!std::isnan(tS) && std::fabs(lat1) < 87 && std::fabs(lat2) < 87 && !(std::fabs(r.S12 - S12) <= 2 * tS * cond)) bad(std::string("inverseline-") + name, "InverseLine(...).Position(Distance()) and Inverse disagree on S12 by " + std::to_string(r.S12 - S12) + " (tolerance " + std::to_string(2 * tS * cond) + ")"); }
+  }
   // reversal
   double s21, b1, b2, m21, N12, N21, T12; g.Inverse(lat2, lon2, lat1, lon1, s21, b1, b2, m21, N12, N21, T12);
   bool unique = !(std::fabs(lat1 + lat2) < 1e-9 && a12 > 170) && a12 < 179.9 && std::fabs(std::fabs(Math::AngDiff(lon1, lon2)) - 180) > 1e-9;
@@ -70,7 +113,8 @@ template<class Geod, class Line> static void inverse_props(const char* name, con
   // direct and line interfaces on the same segment
   { double la, lo, az, mm, MM12, MM21, SS; g.Direct(lat1, lon1, a1, s12, la, lo, az, mm, MM12, MM21, SS);
     if (!(std::fabs(mm - m12) <= 2 * tol && std::fabs(MM12 - M12) <= 4 * tol / ea + 8e-15 && std::fabs(MM21 - M21) <= 4 * tol / ea + 8e-15)) bad(std::string("interfaces-") + name, "direct and inverse interfaces disagree on m12/M12/M21");
-    if (!std::isnan(tS) && std::fabs(lat1) < 87 && std::fabs(lat2) < 87 && !(std::fabs(SS - S12) <= 2 * tS)) bad(std::string("interfaces-") + name, "direct and inverse interfaces disagree on S12 by " + std::to_string(SS - S12)); }
+    double salp0 = std::fabs(std::sin(a1 * Math::degree()) * (double)cosbeta(f, lat1)), cond = std::fmax(1.0, 0.25 / std::fmax(salp0, 1e-3));   // near-pole conditioning of alp12, as above
+    if (!std::isnan(tS) && std::fabs(lat1) < 87 && std::fabs(lat2) < 87 && !(std::fabs(SS - S12) <= 2 * tS * cond)) bad(std::string("interfaces-") + name, "direct and inverse interfaces disagree on S12 by " + std::to_string(SS - S12)); }
   // addition rules at an intermediate point
   { Line l(g, lat1, lon1, a1); double t = 0.37; double la, lo, az, sx, m13 = m12, M13 = M12, M31 = M21, q12, Q12, Q21, S13 = S12, Sa, Sb;
     l.GenPosition(false, t * s12, Geod::ALL, la, lo, az, sx, q12, Q12, Q21, Sa);
@@ -111,21 +155,30 @@ static Reg r_lengths("lengths", [](const Args& a) {
 void gv::generate(const std::string& tier, uint64_t seed) {
   Rng r(seed * 472882027 + 3);
   long n = tier == "thorough" ? 30000 : 1800;
-  std::vector<double> fs = {1 / 298.257223563, 0, 1e-3, -1e-3, 1 / 150.0, -1 / 150.0, 0.01, -0.01, 0.02, -0.02, 0.5, -1.0};
+  const double W = 1 / 298.257223563;
+  std::vector<double> fs = {0, 1e-3, -1e-3, 1 / 150.0, -1 / 150.0, 0.01, -0.01, 0.02, -0.02, 0.5, -1.0}, fdeg = {0.05, -0.05, 0.1, -0.1, 0.2, -0.2},
+                      bax = {0.25, 4, 0.125, 8, 1 / 16.0, 16, 0.04, 25, 0.02, 50, 0.01, 100};
   for (long i = 0; i < n; ++i) {
-    double f = i % 3 == 0 ? fs[0] : r.pick(fs); double a = f == fs[0] ? 6378137.0 : 6.4e6;
+    int kf = r.irange(0, 19);
+    double f = i % 3 == 0 ? W : kf < 14 ? r.pick(fs) : kf < 17 ? r.pick(fdeg) : 1 - r.pick(bax); double a = f == W ? 6378137.0 : 6.4e6, big = std::fmax(a, a * (1 - f));
+    const char* fam = f == W ? "wgs84" : std::fabs(f) <= 0.02 ? "series-range" : std::fabs(f) <= 0.2 ? "series-degraded" : (f >= -1 && f <= 0.5) ? "exact-only" : "exact-extreme";
     double lat1 = r.irange(0, 7) ? r.range(-89, 89) : r.pick(std::vector<double>{0, 45, -45, 89.9, -0.0, 1e-10});
     double azi1 = r.irange(0, 7) ? r.range(-180, 180) : r.pick(std::vector<double>{90, -90, 1e-10, 45, 135, 0.0001});
-    double lon1 = r.range(-180, 180);
-    bool arc = r.coin(); double len = arc ? (r.irange(0, 3) ? r.range(-180, 180) : r.range(-720, 720)) : (r.irange(0, 3) ? r.range(-2e7, 2e7) : r.range(-8e7, 8e7));
+    double lon1 = r.irange(0, 3) ? r.range(-180, 180) : r.range(-720, 720);
+    bool arc = r.coin(); double len = arc ? (r.irange(0, 3) ? r.range(-180, 180) : r.range(-720, 720)) : (r.irange(0, 3) ? r.range(-3.1, 3.1) : r.range(-12.5, 12.5)) * big;
+    if (r.irange(0, 11) == 0) len = arc ? 180 * r.irange(-3, 3) + r.pick(std::vector<double>{0, 1e-9, -1e-6, 0.5, -0.5}) : len;   // arcs at and near multiples of 180 degrees
     run("glengths", {hx(a), hx(f), hx(lat1), hx(lon1), hx(azi1), arc ? "1" : "0", hx(len)});
-    stratum("lengths-direct");
-    // the same segment through the Lean model of GeodesicLine (m12, M12, M21, S12 of GenPosition; ops of Corr/C01.lean)
-    gline::model_case(r, a, f, lat1, lon1, azi1, arc, len, false);
+    stratum(std::string("lengths-direct-") + fam + (arc ? "-arc" : "-dist"));
+    // the same segment through the Lean models of GeodesicLine and GeodesicLineExact (m12, M12, M21, S12 of GenPosition; ops of Corr/C01.lean)
+    if (std::fabs(f) <= 0.2) gline::model_case(r, a, f, lat1, lon1, azi1, arc, len, false);
+    xline::model_case(r, a, f, lat1, lon1, azi1, arc, len, i % 16 == 0);
+    if (i % 4 == 1) gtool::tool_case(r, a, f, lat1, lon1, azi1, arc, len);   // GeodSolve -f on the same segment
+    if (std::fabs(f) > 0.02 && f != 0.5 && f != -1.0) continue;   // the inverse-interface relations keep to the flattenings they are documented for
     double lat2 = r.irange(0, 6) ? r.range(-89, 89) : r.pick(std::vector<double>{0.0, -lat1, lat1, 0.0}), lon2 = r.irange(0, 6) ? r.range(-180, 180) : lon1 + r.pick(std::vector<double>{0.0, 1e-6, 10, 90, 170, 179.5});
     if (i % 9 == 0) { lat1 = 0; lat2 = 0; }   // equatorial segments
     run("ginvlengths", {hx(a), hx(f), hx(lat1), hx(lon1), hx(lat2), hx(lon2)});
     stratum(lat1 == 0 && lat2 == 0 ? "lengths-inverse-equatorial" : "lengths-inverse");
+    if (i % 4 == 2) gtool::tool_inverse_case(r, a, f, lat1, lon1, lat2, lon2);   // GeodSolve -i -f on the same pair
     if (i < 3) sample(current_op());
     if (i % 3 == 0) run("lengths", {hx(f), hx(r.range(-3, 3)), hx(r.range(0, 3.1)), hx(r.range(-0.01, 0.01)), hx(r.range(0, 1)), hx(r.range(0, 1)), r.coin() ? "1" : "0"});
   }
